@@ -290,8 +290,13 @@ func ReachingStores(load *ssa.UnOp) (stores []*ssa.Store, zero bool, ok bool) {
 		return nil, false, false
 	}
 	var a ssa.Value
+	volatile, clobbered := false, false
 	switch x := load.X.(type) {
 	case *ssa.Alloc:
+		// a closure that is called, passed on or started as a goroutine assigns the
+		// variable: a store in this function need not be the value a later load sees when a
+		// call (during which the closure may run) lies between the two
+		volatile = WrittenByLiveClosure(x)
 		a = x
 	case *ssa.FreeVar:
 		// a captured variable: stores inside this literal are visible; a path without a
@@ -316,6 +321,14 @@ func ReachingStores(load *ssa.UnOp) (stores []*ssa.Store, zero bool, ok bool) {
 				zero = true
 				return
 			}
+			if volatile {
+				switch b.Instrs[i].(type) {
+				case *ssa.Call, *ssa.Go:
+					// (deferred calls are not counted: a literal that is only deferred is not
+					// "live", and range-over-func bodies run during the iterator call only)
+					clobbered = true
+				}
+			}
 		}
 		if len(b.Preds) == 0 {
 			zero = true
@@ -330,6 +343,9 @@ func ReachingStores(load *ssa.UnOp) (stores []*ssa.Store, zero bool, ok bool) {
 		}
 	}
 	scanBack(load.Block(), IndexOf(load)-1)
+	if clobbered {
+		return nil, false, false
+	}
 	return stores, zero, true
 }
 
